@@ -20,6 +20,13 @@ fn planes(d: &mut Drv) -> (FrustumPlanes<Q>, Value) {
     let (r, t) = if d.pick(6) == 0 { (l - w, b - h) } else { (l + w, b + h) };
     let n = posq(d);
     let f = n + posq(d);
+    // exact ties: a volume that is symmetric about one axis only, or about both (left + right = 0 with bottom + top /= 0, ...)
+    let (l, r, b, t) = match d.pick(8) { 0 => (-w, w, b, t), 1 => (l, r, -h, h), 2 => (-w, w, -h, h), 3 => (w, -w, b, t), _ => (l, r, b, t) };
+    // the clip volume does not depend on the unit of length: very small and very large view rectangles / depth ranges
+    // (a guard that compares an extent with an absolute epsilon is wrong for them)
+    let p2 = |k: i32| if k >= 0 { Q::new(1i128 << k, 1) } else { Q::new(1, 1i128 << (-k)) };
+    let (kxy, kz): (i32, i32) = [(0, 0), (0, 0), (0, 0), (-45, -45), (-45, 0), (0, -45), (20, 20), (-50, 12)][d.pick(8)];
+    let (l, r, b, t, n, f) = (l * p2(kxy), r * p2(kxy), b * p2(kxy), t * p2(kxy), n * p2(kz), f * p2(kz));
     let v = json!({"l": ev(l), "r": ev(r), "b": ev(b), "t": ev(t), "n": ev(n), "f": ev(f)});
     (FrustumPlanes { left: l, right: r, bottom: b, top: t, near: n, far: f }, v)
 }
@@ -82,13 +89,27 @@ fn smallmat(d: &mut Drv) -> Vec<Vec<Q>> {
 }
 /// model-view / projection pairs: general small-integer matrices, or a real rigid view and a real projection
 fn mv_proj(d: &mut Drv) -> (Vec<Vec<Q>>, Vec<Vec<Q>>) {
-    if d.pick(2) == 0 { return (smallmat(d), smallmat(d)); }
+    if d.pick(2) == 0 {
+        // general matrices; often with exact ties that "look" orthographic / affine without being so: a bottom-right element
+        // equal to 1 next to a non-trivial last row (a combined view-projection), or a last row 0 0 0 1 on one side only
+        let (mut a, mut b) = (smallmat(d), smallmat(d));
+        match d.pick(4) {
+            0 => { a[3][3] = Q::int(1); b[3][3] = Q::int(1); if b[3][2] == Q::int(0) { b[3][2] = Q::int(-1); } }
+            1 => { a[3] = vec![Q::int(0), Q::int(0), Q::int(0), Q::int(1)]; b[3][3] = Q::int(1); if b[3][2] == Q::int(0) { b[3][2] = Q::int(2); } }
+            _ => {}
+        }
+        return (a, b);
+    }
     let r = rot3(&mut d.rng);
     let t: Vec<Q> = (0..3).map(|_| Q::int(d.rng.gen_range(-3..=3))).collect();
     let mv = trs4(&r, &[Q::int(1); 3], &t);
     let (o, _) = planes(d);
     let pj = match d.pick(4) { 0 => rm::Mat4::frustum_rh_no(o), 1 => rm::Mat4::frustum_rh_zo(o), 2 => rm::Mat4::orthographic_rh_no(o), _ => rm::Mat4::orthographic_lh_zo(o) };
-    (mv, MatT::rows(&pj))
+    // homogeneous coordinates: a projection matrix scaled by any non-zero constant projects identically (clip w becomes tiny or
+    // huge but not zero) - the perspective divide must not be guarded by an absolute threshold
+    let k = [Q::int(1), Q::int(1), Q::int(1), Q::int(1), Q::new(1, 1i128 << 45), Q::new(-1, 1i128 << 42)][d.pick(6)];
+    let pj: Vec<Vec<Q>> = MatT::rows(&pj).iter().map(|row: &Vec<Q>| row.iter().map(|x| *x * k).collect()).collect();
+    (mv, pj)
 }
 
 macro_rules! viewport {
